@@ -19,6 +19,14 @@ def setup(dx, dy):
   __CPROVER_assume((fx & ~3u) == 0 && (fy & ~3u) == 0);
   G_bx_entry = G_bx; G_by_entry = G_by; G_xs_entry[0] = G_xs[0]; G_xs_entry[1] = G_xs[1]; G_ys_entry[0] = G_ys[0]; G_ys_entry[1] = G_ys[1];""" % (dx, dx, dy, dy)
 
+NATIVE_DECL = C03.BOX_NATIVE_DECL + "BOX_T G_bx_entry, G_by_entry; ITV_T G_xs_entry[BOX_N], G_ys_entry[BOX_N];\n#include <stdexcept>\n"
+def native(fn, ret, proto, args, dx, dy):
+    """native replay: the operands are rebuilt around the counterexample values and the real function is called in try / catch"""
+    pre = re.sub(r'__CPROVER_assume\((.*)\);', r'PRE(status_words, \1)', setup(dx, dy)) + "\n  BOX_T *x = &G_bx, *y = &G_by;"
+    call = "bool threw = false; try { real_fn(%s); } catch (const std::invalid_argument &) { threw = true; }" % args
+    return {"decl": NATIVE_DECL + "extern %s real_fn(%s) __asm__(XSTR(%s));" % (ret, proto, fn), "pre": pre, "call": call, "post": "C_reject_POSTS(threw)",
+            "show": 'printf("  std::invalid_argument thrown: %d\\n", (int)threw);'}
+
 def build(tier):
     units = []; T = []
     for (tt, pol) in ([("s8", "rat")] if tier == "quick" else [("s8", "nat"), ("s8", "rat")]):
@@ -29,12 +37,15 @@ def build(tier):
                       harness_pre=setup(dx, dy), group="box %s %s" % (tt, pol), nothrow=False, no_return=True)
             for op in OPS2:
                 call = ("FN_b_%s(&G_bx, &G_by)" if op in C03.BOX_VOID else "_Bool r = FN_b_%s(&G_bx, &G_by)") % op
-                T.append(Task("box/%s/%s/%s/dims%d-%d" % (tt, pol, op, dx, dy), u, "FN_b_" + op, ["C14/box_reject.h"], C03.box_vars(), call, **kw))
-            T.append(Task("box/%s/%s/CC76_widening_assign/dims%d-%d" % (tt, pol, dx, dy), u, "FN_b_cc76", ["C14/box_reject.h"], C03.box_vars(), "FN_b_cc76(&G_bx, &G_by, (uint32_t *)0)", **kw))
+                T.append(Task("box/%s/%s/%s/dims%d-%d" % (tt, pol, op, dx, dy), u, "FN_b_" + op, ["C14/box_reject.h"], C03.box_vars(), call,
+                              native=native("FN_b_" + op, "void" if op in C03.BOX_VOID else "bool", "BOX_T*, BOX_T*", "x, y", dx, dy), **kw))
+            T.append(Task("box/%s/%s/CC76_widening_assign/dims%d-%d" % (tt, pol, dx, dy), u, "FN_b_cc76", ["C14/box_reject.h"], C03.box_vars(), "FN_b_cc76(&G_bx, &G_by, (uint32_t *)0)",
+                          native=native("FN_b_cc76", "void", "BOX_T*, BOX_T*, uint32_t*", "x, y, (uint32_t *)0", dx, dy), **kw))
         for dx in (1, 2):
             kw = dict(bounded={"unwind": 4, "note": "space dimension %d; variable index anywhere at or beyond it" % dx}, timeout=900, object_bits=9, defs={"BOX_D": dx, "GHOST_RANGE": "((ex_t)512)"},
                       stubs=["c12_ghost.c", "c17_ghost.c", "c03_box.c"], harness_pre=setup(dx, dx), group="box %s %s" % (tt, pol), nothrow=False, no_return=True)
-            T.append(Task("box/%s/%s/unconstrain/dim%d" % (tt, pol, dx), u, "FN_b_unconstrain", ["C14/box_reject.h"], C03.box_vars() + [Var("uint64_t", "v")], "FN_b_unconstrain(&G_bx, v)", **kw))
+            T.append(Task("box/%s/%s/unconstrain/dim%d" % (tt, pol, dx), u, "FN_b_unconstrain", ["C14/box_reject.h"], C03.box_vars() + [Var("uint64_t", "v")], "FN_b_unconstrain(&G_bx, v)",
+                          native=dict(native("FN_b_unconstrain", "void", "BOX_T*, uint64_t", "x, v", dx, dx), pre=re.sub(r'__CPROVER_assume\((.*)\);', r'PRE(status_words, \1)', setup(dx, dx)) + "\n  BOX_T *x = &G_bx, *y = &G_by;\n  PRE(variable_outside_the_box, v >= %d && v < ((uint64_t)1 << 40))" % dx), **kw))
     return units, T
 
 def main(tier, only=None):
